@@ -302,6 +302,11 @@ func Harness_C15_sub_2_2() { c15(2, 2, true) }
 func Harness_C15_sub_3_1() { c15(3, 1, true) }
 
 // one child is already closing when the step happens
-func Harness_C15_root_2d()  { c15dying = true; c15(0, 2, false) }
-func Harness_C15_sub_1_2d() { c15dying = true; c15(1, 2, true) }
-func Harness_C15_root_3d()  { c15dying = true; c15(0, 3, false) }
+func c15d(nev, nchildren int, subscriber bool) {
+	c15dying = true
+	defer func() { c15dying = false }() // native replays share one process
+	c15(nev, nchildren, subscriber)
+}
+func Harness_C15_root_2d()  { c15d(0, 2, false) }
+func Harness_C15_sub_1_2d() { c15d(1, 2, true) }
+func Harness_C15_root_3d()  { c15d(0, 3, false) }
